@@ -29,6 +29,32 @@ def setup():
 
 
 _REC = {}
+SCALE = {"rowid": (3, 10), "f": (2, 5)}  # per-feature affine parameters of the tagging scaler (fitted in training column order)
+
+
+class TagScaler:
+    """Scaler stub with per-column parameters bound at fit time to the TRAINING column order
+    (like StandardScaler): column j -> a_j * x + b_j."""
+    is_scaler = True
+
+    def __init__(self):
+        self.params = None
+
+    def fit(self, X):
+        self.params = [SCALE[c] for c in FEATS][:X.ncol]
+        return self
+
+    def _apply(self, X):
+        from symx import symnp
+        return symnp.SArray2([[a * v + b for v, (a, b) in zip(row, self.params)] for row in X.rows], symnp.float64, X.ncol)
+
+    def fit_transform(self, X):
+        self.fit(X)
+        return self._apply(X)
+
+    def transform(self, X):
+        return self._apply(X)
+
 
 
 def _estimator_class():
@@ -56,6 +82,13 @@ def _estimator_class():
             out = []
             for row in X.rows:
                 rid = row[0]
+                if rec.get("scaled") and not isinstance(rid, core.Sym):
+                    a0, b0 = SCALE["rowid"]
+                    rid = (rid - b0) / a0
+                    if rid != int(rid):
+                        # the value in the row-id column is not a row id scaled with the row-id parameters
+                        out.append(core.SNum(z3.Real("score_fit%d_misplaced%d" % (k, len(out)))))
+                        continue
                 if isinstance(rid, core.Sym):
                     # a symbolic value where the row id was expected: features were matched by position
                     out.append(core.SNum(z3.Real("score_fit%d_misplaced%d" % (k, len(out)))))
@@ -102,7 +135,7 @@ def sym(ctx, cfg):
     df = sympd.DataFrame({"spec": list(range(n)), "Label": [SBool(z) for z in zt], "pep": ["PEP%d" % i for i in range(n)],
                           "rowid": list(range(n)), "f": [SNum(z) for z in zf]})
     _REC.clear()
-    _REC[7] = dict(fits=[], scored=[], scores={})
+    _REC[7] = dict(fits=[], scored=[], scores={}, scaled=bool(cfg.get("scaler")))
     Est = _estimator_class()
     if cfg.get("proba"):
         Base = Est
@@ -112,12 +145,12 @@ def sym(ctx, cfg):
                   scores=_ScoreTable(_REC[7]["scores"]), direction=cfg.get("direction"))
     real_tdc = Q.__dict__["tdc"]
     Q.__dict__["tdc"] = tdc_by_spec(ctx)
-    M.clone = lambda e: Est(e.tag)
+    M.clone = lambda e: e if getattr(e, "is_scaler", False) else Est(e.tag)
     for i in range(1, 4):  # predict_proba scores are probabilities: keep the fresh score symbols in [0, 1]
         pass
     try:
         psms = D.LinearPsmDataset(df, target_column="Label", spectrum_columns="spec", peptide_column="pep", feature_columns=list(FEATS), copy_data=True)
-        model = M.Model(Est(7), scaler="as-is", train_fdr=SNum(fdr), max_iter=iters, direction=cfg.get("direction"), shuffle=shuffle, rng=gen, override=True)
+        model = M.Model(Est(7), scaler=TagScaler() if cfg.get("scaler") else "as-is", train_fdr=SNum(fdr), max_iter=iters, direction=cfg.get("direction"), shuffle=shuffle, rng=gen, override=True)
         model.fit(psms)
         # prediction on a dataset whose feature columns come in another order
         df2 = sympd.DataFrame({"f": [SNum(z) for z in zf], "spec": list(range(n)), "Label": [SBool(z) for z in zt], "pep": ["PEP%d" % i for i in range(n)],
@@ -148,16 +181,24 @@ def _fit_props(rec, n, zt, zf, fdr, cfg, iters, pred, check_predict):
     from symx import core
     props = [("fit_calls", z3.BoolVal(len(rec["fits"]) == iters))] if iters is not None else []
     prev_scores = None
+    scaled = bool(cfg.get("scaler"))
+    (a0, b0), (a1, b1) = (SCALE["rowid"], SCALE["f"]) if scaled else ((1, 0), (1, 0))
+
+    def rid_of(v):
+        if isinstance(v, core.Sym):
+            return v
+        u = (v - b0) / a0 if scaled else v
+        return int(u) if int(u) == u else v
     for k, (X, y) in enumerate(rec["fits"]):
         rows = X.rows
-        ids = [int(r[0]) if not isinstance(r[0], core.Sym) and int(r[0]) == r[0] else r[0] for r in rows]
+        ids = [rid_of(r[0]) for r in rows]
         props.append(("fit%d_shapes" % k, z3.BoolVal(len(rows) == len(y) and len(set(ids)) == len(ids) and all(isinstance(i, int) and 0 <= i < n for i in ids))))
         if not (len(rows) == len(y) and all(isinstance(i, int) and 0 <= i < n for i in ids)):
             continue
         for j, r in enumerate(rows):
             i = ids[j]
             # the feature row is PSM i's own row, and the label handed over belongs to PSM i:
-            props.append(("fit%d_row%d_features" % (k, i), core._z(r[1]) == zf[i]))
+            props.append(("fit%d_row%d_features" % (k, i), core._z(r[1]) == a1 * zf[i] + b1))
             yj = core._z(y.items[j])
             props.append(("fit%d_row%d_label_is_target_flag" % (k, i), (yj == 1) == zt[i]))
             props.append(("fit%d_row%d_label_binary" % (k, i), z3.Or(yj == 0, yj == 1)))
@@ -191,7 +232,7 @@ def _fit_props(rec, n, zt, zf, fdr, cfg, iters, pred, check_predict):
     props.append(("predict_shape", z3.BoolVal(len(Xp.rows) == n and len(pred) == n)))
     if len(Xp.rows) == n:
         for j, r in enumerate(Xp.rows):
-            props.append(("predict_row%d_by_name" % j, z3.And(core._z(r[0]) == j, core._z(r[1]) == zf[j])))
+            props.append(("predict_row%d_by_name_with_its_own_scaling" % j, z3.And(core._z(r[0]) == a0 * j + b0, core._z(r[1]) == a1 * zf[j] + b1)))
     return props
 
 
@@ -211,6 +252,9 @@ def harnesses(tier):
     stubs = ["estimator -> recording scikit-learn estimator; scores fresh symbols per (fit call, row)", "qvalues.tdc -> fresh q-values constrained by the C01 formula (discharged by C01)",
              "rng.permutation -> arbitrary permutation (all permutations for n <= 3, else {identity, reversal, rotation})", "scaler 'as-is' (real DummyScaler)", "sklearn.base.clone -> new recorder with the same tag"]
     funcs = [M.Model.fit, M.Model.decision_function, M._get_starting_labels, M._get_scores, M._find_hyperparameters, D.LinearPsmDataset.__init__, D.PsmDataset._find_best_feature, D._update_labels]
+    hs.append(Harness("fit[n=2,iters=2,direction=f,scaler with per-feature parameters]", dict(n=2, iters=2, direction="f", proba=0, scaler=True), sym, real="fit", functions=funcs,
+                      bounds=dict(N=2, max_iter=2), stubs=stubs + ["scaler -> per-column affine map fitted in training column order (stands for StandardScaler)"],
+                      assumptions=["0 < train_fdr <= 1"], sample_rate=0.6))
     cfgs = [(2, 2, None, 0), (3, 2, None, 0), (3, 2, "f", 0), (3, 2, "f", 2), (2, 2, None, 1)] if tier == "quick" else \
         [(2, 3, None, 0), (3, 3, None, 0), (3, 2, "f", 0), (4, 2, None, 0), (4, 3, "f", 0), (3, 2, None, 2), (3, 2, "f", 1)]
     for n, iters, direction, proba in cfgs:
@@ -235,6 +279,11 @@ def real_fit(cfg, inp):
     f = [float(x) for x in inp["f"]]
     table = {(int(k), int(r)): float(v) for k, r, v in inp["scores"]}
     log = dict(fits=[], scored=[])
+    (a0, b0), (a1, b1) = (SCALE["rowid"], SCALE["f"]) if cfg.get("scaler") else ((1, 0), (1, 0))
+
+    def rid(v):
+        u = (float(v) - b0) / a0
+        return int(round(u)) if abs(u - round(u)) < 1e-9 else -1
 
     class Rec(BaseEstimator):
         def __init__(self, tag=0):
@@ -247,7 +296,7 @@ def real_fit(cfg, inp):
         def decision_function(self, X):
             k = len(log["fits"])
             log["scored"].append(np.array(X, dtype=float).copy())
-            return np.array([table.get((k, int(r[0])), 0.0) for r in np.asarray(X)], dtype=float)
+            return np.array([table.get((k, rid(r[0])), 0.0) for r in np.asarray(X)], dtype=float)
 
     class RecProba(BaseEstimator):
         def __init__(self, tag=0, columns=2):
@@ -261,7 +310,7 @@ def real_fit(cfg, inp):
         def predict_proba(self, X):
             k = len(log["fits"])
             log["scored"].append(np.array(X, dtype=float).copy())
-            v = np.array([table.get((k, int(r[0])), 0.0) for r in np.asarray(X)], dtype=float)
+            v = np.array([table.get((k, rid(r[0])), 0.0) for r in np.asarray(X)], dtype=float)
             return np.column_stack([1 - v, v]) if self.columns == 2 else v.reshape(-1, 1)
 
     class Scripted(np.random.Generator):
@@ -278,7 +327,23 @@ def real_fit(cfg, inp):
     fdr = float(inp["train_fdr"])
     try:
         psms = LinearPsmDataset(df, target_column="Label", spectrum_columns="spec", peptide_column="pep", feature_columns=list(FEATS), copy_data=True)
-        model = Model(RecProba(7, cfg["proba"]) if cfg.get("proba") else Rec(7), scaler="as-is", train_fdr=fdr, max_iter=cfg["iters"], direction=cfg.get("direction"), shuffle=bool(inp["shuffle"]),
+        scaler = "as-is"
+        if cfg.get("scaler"):
+            from sklearn.base import BaseEstimator as _BE
+
+            class RealTagScaler(_BE):
+                def fit(self, X, y=None):
+                    self.params_ = [SCALE[c] for c in FEATS][:np.asarray(X).shape[1]]
+                    return self
+
+                def transform(self, X):
+                    X = np.asarray(X, dtype=float)
+                    return np.column_stack([a * X[:, j] + b for j, (a, b) in enumerate(self.params_)])
+
+                def fit_transform(self, X, y=None):
+                    return self.fit(X).transform(X)
+            scaler = RealTagScaler()
+        model = Model(RecProba(7, cfg["proba"]) if cfg.get("proba") else Rec(7), scaler=scaler, train_fdr=fdr, max_iter=cfg["iters"], direction=cfg.get("direction"), shuffle=bool(inp["shuffle"]),
                       rng=Scripted(inp.get("perms") or []), override=True)
         model.fit(psms)
         df2 = df[["f", "spec", "Label", "pep", "rowid"]]
@@ -288,26 +353,28 @@ def real_fit(cfg, inp):
         msg = str(ex)
         if ("No target PSMs" in msg or "No decoy PSMs" in msg or "No PSMs accepted at train_fdr" in msg or "No PSMs found below the 'eval_fdr'" in msg
                 or "Model performs worse after training" in msg):
-            return dict(exception=type(ex).__name__, violation=_check_fits(log, n, tg, f, fdr, table))
+            return dict(exception=type(ex).__name__, violation=_check_fits(log, n, tg, f, fdr, table, rid, a1, b1))
         return dict(exception=repr(ex), violation="raised %r" % (ex,))
     except Exception as ex:
         return dict(exception=repr(ex), violation="raised %r" % (ex,))
-    v = _check_fits(log, n, tg, f, fdr, table)
+    v = _check_fits(log, n, tg, f, fdr, table, rid, a1, b1)
     if v:
         return dict(violation=v)
     Xp = log["scored"][-1]
     for j in range(n):
-        if int(Xp[j][0]) != j or float(Xp[j][1]) != f[j]:
-            return dict(violation="predict: features matched by position, row %d = %s" % (j, Xp[j].tolist()))
+        if rid(Xp[j][0]) != j or abs(float(Xp[j][1]) - (a1 * f[j] + b1)) > 1e-9:
+            return dict(violation="predict: the estimator did not receive PSM %d's features selected by name and scaled with their own parameters: got %s, expected %s" % (j, Xp[j].tolist(), [a0 * j + b0, a1 * f[j] + b1]))
     return dict(outputs=None, violation=None)
 
 
-def _check_fits(log, n, tg, f, fdr, table):
+def _check_fits(log, n, tg, f, fdr, table, rid=int, a1=1, b1=0):
     prev = None
     for k, (X, y) in enumerate(log["fits"]):
-        ids = [int(r[0]) for r in X]
+        ids = [rid(r[0]) for r in X]
         for j, i in enumerate(ids):
-            if float(X[j][1]) != f[i]:
+            if i < 0 or i >= n:
+                return "fit %d: row %s is not a PSM's feature row" % (k, X[j].tolist())
+            if abs(float(X[j][1]) - (a1 * f[i] + b1)) > 1e-9:
                 return "fit %d: feature row of PSM %d is %r, expected %r" % (k, i, float(X[j][1]), f[i])
             if (y[j] == 1) != tg[i] or y[j] not in (0.0, 1.0):
                 return "fit %d: PSM %d (target=%s) was given label %r (rows %s labels %s)" % (k, i, tg[i], float(y[j]), ids, y.tolist())
